@@ -39,7 +39,7 @@ def pick_names(rng, n):
     return names[:n]
 
 FAMILIES = ["grid", "dyadic", "generic", "nested", "identical", "longoverlap", "touching", "negative",
-            "offset", "tiny", "mixeddur", "dense"]
+            "offset", "tiny", "mixeddur", "dense", "heavytail"]
 # "coarse" (times float32 cannot hold exactly) is NOT in the default list: only the checks whose reference follows the
 # library's float32 model ask for it explicitly
 
@@ -106,6 +106,14 @@ def gen_segments(rng, family, k, horizon=None):
         for _ in range(k):
             s = float(rng.randrange(0, 10))
             segs.append((s, s + float(rng.choice([1, 1, 1, 5, 8, 25, 30]))))
+    elif family == "heavytail":
+        # durations over three orders of magnitude, the long units tending to start later: a unit that starts far after
+        # another one can still be its best partner (the positional dissimilarity is relative to the durations), so
+        # nothing may be concluded from the start order alone
+        for _ in range(k):
+            d = float(rng.choice([1, 1, 2, 5, 20, 100, 400, 1750]))
+            s = float(rng.randrange(0, 40) if d < 20 else rng.randrange(0, 300))
+            segs.append((s, s + d))
     elif family == "tiny":
         for _ in range(k):
             s = rng.randrange(0, 64) / 64.0
